@@ -312,6 +312,7 @@ pub fn run_history_dyn(spec: &SeqSpec, history: &[Op]) -> HistoryRun {
         4 => run_history::<ArrayKey<4>>(spec, history),
         8 => run_history::<ArrayKey<8>>(spec, history),
         33 => run_history::<ArrayKey<33>>(spec, history),
+        1000 => run_history::<ArrayKey<1000>>(spec, history),
         n => panic!("unsupported key length {n}"),
     }
 }
